@@ -243,6 +243,7 @@ class FuncSpec:
         self.requires = []; self.ensures = []; self.exits_iff = None; self.valid_iff = None
         self.assigns = None           # None = derive (nothing for const methods), list of X otherwise
         self.static_invs = {}         # local static name -> [Clause]
+        self.captures = []            # (type, name) of lambda captures
         self.ghosts = []              # (type, name)
         self.loops = {}
         self.callbacks = {}           # param name -> dict(arg names, requires [X], ensures [X], uf name)
@@ -416,6 +417,11 @@ class SpecDB:
                     if not hasattr(ctx, 'calls'): ctx.calls = []
                     call_ex = self.expand(parse_expr('__args(' + m2.group(3) + ')'))
                     ctx.calls.append((m2.group(1), m2.group(2), list(call_ex.args)))
+                elif head == 'capture':
+                    # capture TYPE NAME : a variable captured by the lambda whose operator() this block describes
+                    t, n = rest.split()
+                    if not isinstance(ctx, FuncSpec): raise SpecError('capture outside a function block')
+                    ctx.captures.append((t, n))
                 elif head == 'static':
                     # static NAME invariant EXPR : representation invariant of a function-local static (established by its
                     # initialiser, assumed where the declaration is reached, re-established at every return)
